@@ -145,25 +145,35 @@ async def pump_acts_exactly_when_it_should(si: int, no_desc: bool, configured: b
 
 # ------------------------------------------------------------------- no dead-end state
 @harness(prop="C09", target="geckolib.async_spa_manager:GeckoAsyncSpaMan._handle_event", name="no_lifecycle_state_is_a_dead_end")
-async def no_lifecycle_state_is_a_dead_end():
+async def no_lifecycle_state_is_a_dead_end(si: int):
     """with an identifier configured: from every state something still drives the manager towards CONNECTED"""
-    for state in ALL_STATES:
-        has_facade = state == S.CONNECTED
-        has_spa = state in (S.CONNECTED, S.SPA_READY, S.CONNECTING, S.ERROR_PING_MISSED, S.ERROR_RF_FAULT, S.ERROR_NEEDS_ATTENTION)
-        pump_acts = len(expected_calls(state, True, "SPA1", None, has_facade)) > 0 or \
-            len(expected_calls(state, False, "SPA1", None, has_facade)) > 0
-        phase_running = state in (S.LOCATING_SPAS, S.CONNECTING, S.SPA_READY)      # closed by its finished event (C08)
-        heals_on_ping = False
-        if has_spa and not phase_running and state != S.CONNECTED:
-            m = make_man(state, has_facade, True, True, False)
-            await m._handle_event(E.RUNNING_PING_RECEIVED)
-            heals_on_ping = both(m._spa_state is S.IDLE, m._spa_descriptors is None, m._spa is None, m._facade is None)
-        alive = either(state == S.CONNECTED, pump_acts, phase_running, heals_on_ping)
-        if state == S.ERROR_SPA_NOT_FOUND:
-            known_finding("C09:spa-not-found-is-a-dead-end", True)
-            ensures("spa-not-found-is-retried", alive)
-        else:
-            ensures("state-is-not-a-dead-end:" + S.to_string(state), alive)
+    requires(both(0 <= si, si < len(ALL_STATES)))
+    for state in [ALL_STATES[concrete_cases(si, 0, len(ALL_STATES) - 1)]]:
+        for has_spa in (True, False):
+            has_facade = state == S.CONNECTED
+            if has_facade and not has_spa:
+                continue                                  # CONNECTED holds only with a live spa (C08 invariant)
+            if has_spa and state in (S.IDLE, S.LOCATING_SPAS, S.LOCATED_SPAS, S.ERROR_SPA_NOT_FOUND):
+                continue                                  # no spa object exists before a connect phase has started
+            pump_acts = len(expected_calls(state, True, "SPA1", None, has_facade)) > 0 or \
+                len(expected_calls(state, False, "SPA1", None, has_facade)) > 0
+            phase_running = state in (S.LOCATING_SPAS, S.CONNECTING, S.SPA_READY)  # closed by its finished event (C08)
+            heals_on_ping = False
+            if has_spa and not phase_running and state != S.CONNECTED:
+                m = make_man(state, has_facade, True, True, False)
+                await m._handle_event(E.RUNNING_PING_RECEIVED)
+                heals_on_ping = both(m._spa_state is S.IDLE, m._spa_descriptors is None, m._spa is None, m._facade is None)
+            alive = either(state == S.CONNECTED, pump_acts, phase_running, heals_on_ping)
+            if state == S.ERROR_SPA_NOT_FOUND:
+                known_finding("C09:spa-not-found-is-a-dead-end", True)
+                ensures("spa-not-found-is-retried", alive)
+            elif state in ERROR_STATES and not has_spa:
+                # reachable: a reset in the middle of a handshake drops the spa, the abandoned handshake then reports
+                # CONNECTION_PROTOCOL_RETRY_COUNT_EXCEEDED, which sets ERROR_NEEDS_ATTENTION unconditionally
+                known_finding("C09:error-state-without-a-spa-is-a-dead-end", True)
+                ensures("error-state-without-a-spa-is-left-again", alive)
+            else:
+                ensures("state-is-not-a-dead-end:" + S.to_string(state), alive)
     cover("reached-end", True)
 
 
@@ -357,3 +367,43 @@ harness(prop="C09", target="geckolib.async_spa_manager:GeckoAsyncSpaMan.async_re
 harness(prop="C09", target="geckolib.async_spa_manager:GeckoAsyncSpaMan.async_locate_spas",
         uses=["discover_may_raise", "connect_may_raise_or_complete", "facade_ctor"],
         name="every_started_phase_is_closed")(c08_lifecycle.started_phases_are_always_finished)
+
+
+# --------------------------------------------- the watchdog exists for the whole life of a connection attempt
+from contracts import c10_leaks
+from geckolib.async_tasks import AsyncTasks
+
+
+class Hs:
+    tasks_at_first_request = None
+    requests = 0
+
+
+@summary("geckolib.driver.async_udp_protocol:GeckoAsyncUdpProtocol.get", name="first_request_probe",
+         note="engine stand-in (C06): notes which background tasks exist when the handshake sends its first request; no reply")
+async def first_request_probe(self, create_func, destination=None, retry_count=10):
+    if Hs.tasks_at_first_request is None:
+        Hs.tasks_at_first_request = [t.name for t in c10_leaks.Net.tasks]
+    Hs.requests = Hs.requests + 1
+    return None
+
+
+async def ignore_event(event, **kwargs):
+    return None
+
+
+@harness(prop="C09", target="geckolib.async_spa:GeckoAsyncSpa._connect", uses=["first_request_probe"],
+         name="ping_and_refresh_loops_run_from_the_first_request_of_a_handshake")
+async def ping_and_refresh_loops_run_from_the_first_request_of_a_handshake():
+    """a handshake that fails half-way (blackout) leaves the manager in an error state; only an answered ping leads out of
+    it, so the ping loop must already be running when the handshake sends its first request"""
+    c10_leaks.arm(-1)
+    Hs.tasks_at_first_request = None
+    Hs.requests = 0
+    spa = GeckoAsyncSpa(b"IOSx", c10_leaks.Descr(), AsyncTasks(), ignore_event)
+    await spa.connect()
+    ensures("handshake-sent-a-request", Hs.requests >= 1)
+    ensures("ping-loop-already-running", "SPA:Ping loop" in Hs.tasks_at_first_request)
+    ensures("refresh-loop-already-running", "SPA:Refresh loop" in Hs.tasks_at_first_request)
+    ensures("failed-handshake-keeps-its-watchdog", both(not spa.is_connected,
+                                                       len([t for t in c10_leaks.Net.tasks if t.name == "SPA:Ping loop" and not t.cancelled]) == 1))
